@@ -784,11 +784,19 @@ func runC06(e *env) {
 		return
 	}
 	perCase := 2 * time.Second
-	c06Renders(e, perCase)
-	c06Exprs(e, perCase)
-	c06Globals(e, perCase)
-	c06Ranges(e)
-	c06JsWrites(e, perCase)
+	t0 := time.Now()
+	phase := func(name string, f func()) {
+		t := time.Now()
+		f()
+		e.res.Histogram[fmt.Sprintf("phase-ms:%s", name)] = int(time.Since(t).Milliseconds())
+	}
+	phase("renders", func() { c06Renders(e, perCase) })
+	phase("exprs", func() { c06Exprs(e, perCase) })
+	phase("globals", func() { c06Globals(e, perCase) })
+	phase("ranges", func() { c06Ranges(e) })
+	phase("jswrites", func() { c06JsWrites(e, perCase) })
+	phase("float-json", func() { c06FloatJSON(e) })
+	_ = t0
 }
 
 func paramNamesOf(files []srcFile, entry string) []string {
@@ -1032,7 +1040,7 @@ func c06Renders(e *env, perCase time.Duration) {
 	var plans []c06Plan
 	plans = append(plans, c06Enumerations(e)...)
 	// ---- the random ill-typed stream ----
-	n := 120 * e.scale
+	n := 100 * e.scale
 	for i := 0; i < n; i++ {
 		o := progOpts{depth: 3, directives: true, illTyped: 12, exprHook: c06ExprHook, dirHook: c06DirHook}
 		files, entry, dataSets, feats := genBundle(e.rng, o)
